@@ -252,7 +252,56 @@ def check_cli(case, ctx: Ctx):
     ctx.record(case, nchunks >= 2 and len(set(keys)) != len(keys), ["cli-load", f"cli-chunks={min(nchunks, 5)}", "cli-temp=" + case["temp"]])
 
 
-CHECKS = {"cli": check_cli, "unordered": check_unordered, "big": check_big}
+# ---------------------------------------------------------------------------
+# history "first call of a fresh process": nothing of cooler or dask has been imported before
+# ---------------------------------------------------------------------------
+
+_FRESH = r"""
+import os, sys
+sys.path.insert(0, sys.argv[1])
+import pandas as pd
+import cooler
+d, n_calls = sys.argv[2], int(sys.argv[3])
+bins = pd.DataFrame({"chrom": ["c"] * 4, "start": [0, 10, 20, 30], "end": [10, 20, 30, 40]})
+chunks = [pd.DataFrame({"bin1_id": [0, 1], "bin2_id": [1, 2], "count": [1, 2]}),
+          pd.DataFrame({"bin1_id": [0, 2], "bin2_id": [1, 3], "count": [5, 1]}),
+          pd.DataFrame({"bin1_id": [1], "bin2_id": [2], "count": [4]})]
+for k in range(n_calls):
+    out = os.path.join(d, "o%d.cool" % k)
+    before = set(os.listdir(d))
+    cooler.create_cooler(out, bins, iter(chunks), ordered=False, max_merge=2 if k else 200)
+    left = sorted(set(os.listdir(d)) - before - {"o%d.cool" % k})
+    px = cooler.Cooler(out).pixels()[:]
+    print("CALL", k, left, list(zip(px["bin1_id"].tolist(), px["bin2_id"].tolist(), px["count"].tolist())))
+"""
+
+
+def check_fresh(case, ctx: Ctx):
+    import subprocess
+    import sys
+
+    d = ctx.tmpdir()
+    try:
+        src = os.path.join(os.environ.get("VERIF_REPO", "/repo"), "src")
+        r = subprocess.run([sys.executable, "-c", _FRESH, src, d, str(case["calls"])], capture_output=True, text=True, timeout=300,
+                           env={k: v for k, v in os.environ.items() if k != "PYTHONPATH"})
+        check(r.returncode == 0, lambda: f"create_cooler(ordered=False) in a fresh process failed: {r.stderr[-300:]}")
+        lines = [ln for ln in r.stdout.splitlines() if ln.startswith("CALL ")]
+        check(len(lines) == case["calls"], f"fresh process reported {len(lines)} calls")
+        want = "[(0, 1, 6), (1, 2, 6), (2, 3, 1)]"
+        for ln in lines:
+            _, k, rest = ln.split(" ", 2)
+            left, got = rest.split("] [", 1)
+            check(left + "]" == "[]", lambda: f"call {k} of a fresh process (nothing imported before): temporary files outlive the successful run: {left}]")
+            check("[" + got == want, lambda: f"call {k} of a fresh process stored {'[' + got}, want {want}")
+        after = sorted(x for x in os.listdir(d) if not (x.startswith("o") and x.endswith(".cool")))
+        check(not after, lambda: f"after the fresh process ended the directory still holds {after}")
+    finally:
+        ctx.clean(d)
+    ctx.record(case, True, ["fresh-process", f"fresh-calls={case['calls']}"])
+
+
+CHECKS = {"fresh": check_fresh, "cli": check_cli, "unordered": check_unordered, "big": check_big}
 
 
 def replay(ctx: Ctx, case):
@@ -265,6 +314,13 @@ def run(ctx: Ctx):
         case = {"part": "big", "mergebuf": [400_000, 1_000_001, 50_000][ctx.shard % 3]}
         try:
             check_big(case, ctx)
+        except Violation as e:
+            ctx.add_violation(case, str(e))
+            return
+    if ctx.shard in (1, 2) or not q:
+        case = {"part": "fresh", "calls": 1 + ctx.shard % 2}
+        try:
+            check_fresh(case, ctx)
         except Violation as e:
             ctx.add_violation(case, str(e))
             return
